@@ -677,3 +677,33 @@ Proof.
   rewrite (est_record_accept 14 7000000000) by (cbn; lia).
   cbn [prev_time start_time est_new]. repeat split; lia.
 Qed.
+
+(** one public update 15 s after creation: hypotheses of bar_steady with r = 1 *)
+Definition steady_ops : list eop := [Adv 15000000000; UpdPos 15].
+
+Lemma steady_ops_example : forall len,
+  no_wrap steady_ops 0 /\
+  segs_ok (fun x => x = 1) (bar_evs steady_ops 0 (bar_new Rar len 0)) (est_new Rar 0) /\
+  let b := fst (run_state Rar steady_ops 0 (bar_new Rar len 0)) in
+  let now := snd (run_state Rar steady_ops 0 (bar_new Rar len 0)) in
+  b_done b = false /\ (start_time (b_est b) < prev_time (b_est b))%N /\ now = prev_time (b_est b).
+Proof.
+  intros len.
+  assert (Hn : no_wrap steady_ops 0).
+  { unfold steady_ops. cbn [no_wrap clock_step]. unfold wadd64, U64.
+    repeat split; try exact I; cbn; reflexivity. }
+  assert (Hev : bar_evs steady_ops 0 (bar_new Rar len 0) = [ERec 15 15000000000]).
+  { unfold steady_ops. cbn [bar_evs bar_evs_step clock_step app].
+    change (wadd64 0 15000000000) with 15000000000%N. reflexivity. }
+  split; [exact Hn|]. split.
+  - rewrite Hev. cbn [segs_ok]. split; [|exact I]. intros _ _.
+    unfold seg_rate. cbn [prev_steps prev_time est_new].
+    change (15000000000 - 0)%N with 15000000000%N. change (15 - 0)%N with 15%N.
+    rewrite secs_15. cbn [Z.of_N]. lra.
+  - cbv zeta. destruct (bar_after len 0%N steady_ops Hn) as (_ & He & _).
+    rewrite Hev, wit1_state in He.
+    split; [reflexivity|]. change (T Rar) with R in *. rewrite He. cbn [start_time prev_time].
+    split; [lia|].
+    unfold steady_ops. cbn [run_state clock_step snd].
+    change (wadd64 0 15000000000) with 15000000000%N. reflexivity.
+Qed.
